@@ -2,7 +2,10 @@
 
 package main
 
-import "fmt"
+import (
+	"fmt"
+	"time"
+)
 
 func init() {
 	// ---- C11: retransmissions are bit-identical, bounded and on schedule ----
@@ -22,6 +25,14 @@ func init() {
 			cliHistories(c, "C11", cliOpts{MsgSize: []int{2052}, NoRetransmit: true}, alpha, depth-1, eps, "Hnr")
 			cliHistories(c, "C11", cliOpts{MsgSize: []int{24}, RTO: 1}, alpha, depth-1, eps, "Hrto1ns")
 			cliHistories(c, "C11", cliOpts{MsgSize: []int{1024}, RTO: 1000000}, alpha, depth-2, eps, "Hrto1ms")
+			// time scales: early ticks (the collector fires between deadlines), and RTOs of 2 minutes, 100 and 250 years
+			// (deadlines beyond what a 64-bit nanosecond count since 1970 can hold)
+			slow := []cliEv{{K: "start", I: 0}, {K: "tick", Arg: 4}, {K: "tick", Arg: 0}, {K: "tick", Arg: 1}, {K: "resp", I: 0}, {K: "failwrite"}}
+			cliHistories(c, "C11", cliOpts{MsgSize: []int{2052}}, slow, depth, eps, "Hearly")
+			for _, rto := range []time.Duration{2 * time.Minute, 100 * 365 * 24 * time.Hour, 250 * 365 * 24 * time.Hour} {
+				cliHistories(c, "C11", cliOpts{RTO: int64(rto)}, slow, depth-2, eps, "Hslow")
+				cliHistories(c, "C11", cliOpts{RTO: int64(rto), NoRetransmit: true}, slow, depth-2, eps, "Hslow-nr")
+			}
 			// size sweep on fixed histories: all 8 transmissions and the final timeout / a response after two retransmissions
 			tickAfter := cliEv{K: "tick", Arg: 1}
 			tickAt := cliEv{K: "tick", Arg: 0}
@@ -49,6 +60,8 @@ func init() {
 				{Opts: cliOpts{MsgSize: []int{3000}}, Setup: []cliEv{{K: "start", I: 0}}, Threads: [][]cliEv{nil, {tickAfter, tickAfter, tickAfter}, {{K: "setrto", Arg: 1}, {K: "start", I: 1}}}, Epilogue: "drain+close"},
 				// two clients re-transmitting at the same time (they share the package-level scratch pool)
 				{TwoClients: true, Opts: cliOpts{MsgSize: []int{3000}}, Setup: []cliEv{{K: "start", I: 0}, {K: "start2", I: 1}}, Threads: [][]cliEv{nil, {tickAfter, tickAfter}, {{K: "tick2"}, {K: "tick2"}}}, Epilogue: "drain+close"},
+				// Start(A) || a tick that times A out for good (no re-transmission) || Start(B) taking A's recycled object
+				{Opts: cliOpts{MsgSize: []int{100, 60}, NoRetransmit: true, PoolFanout: true}, Threads: [][]cliEv{nil, {{K: "start", I: 0}}, {{K: "tick", Arg: 2}}, {{K: "start", I: 1}}}, Epilogue: "drain+close"},
 			} {
 				cliExplore(c, "C11", sc, 2, true, fmt.Sprintf("S%d", i+1))
 			}
@@ -81,6 +94,15 @@ func init() {
 			cliHistories(c, "C12", cliOpts{Fallback: true, PoolFanout: true}, core, depth, eps, "Hcore")
 			cliHistories(c, "C12", cliOpts{PoolFanout: true}, alpha, depth-2, eps, "H")
 			cliHistories(c, "C12", cliOpts{PoolFanout: true}, core, depth-1, eps, "Hcore-nofb")
+			// datagrams whose id is not in flight but collides with A under a digest (CRC-32, xor-fold, byte multiset)
+			twins := []cliEv{{K: "start", I: 0}, {K: "resp", I: 0}, {K: "unknown", I: 5}, {K: "unknown", I: 6}, {K: "unknown", I: 7}, {K: "tick", Arg: 1}}
+			cliHistories(c, "C12", cliOpts{Fallback: true}, twins, depth, eps, "Htwin")
+			cliHistories(c, "C12", cliOpts{}, twins, depth-1, eps, "Htwin-nofb")
+			// long time scales: with an RTO of 2 minutes (and of 100 years, without re-transmission) a response that
+			// arrives after one or two deadlines, minutes or centuries after Start, still belongs to its transaction
+			slow := []cliEv{{K: "start", I: 0}, {K: "start", I: 1}, {K: "resp", I: 0}, {K: "resp", I: 1}, {K: "unknown"}, {K: "tick", Arg: 0}, {K: "tick", Arg: 1}}
+			cliHistories(c, "C12", cliOpts{Fallback: true, RTO: int64(2 * time.Minute)}, slow, depth, eps, "Hslow")
+			cliHistories(c, "C12", cliOpts{Fallback: true, RTO: int64(100 * 365 * 24 * time.Hour), NoRetransmit: true}, slow, depth-1, eps, "Hcenturies")
 			small := []cliEv{{K: "start", I: 0}, {K: "start", I: 1}, {K: "resp", I: 0}, {K: "resp", I: 1, Arg: 2}, {K: "unknown"}, {K: "tick", Arg: 1}, {K: "failagent"}, {K: "failwrite"}}
 			cliHistoriesFrom(c, "C12", cliOpts{Fallback: true, PoolFanout: true}, []cliEv{{K: "start", I: 0}, {K: "resp", I: 0}}, small, depth, eps, "Hafter")
 			ev := func(k string, i int) cliEv { return cliEv{K: k, I: i} }
@@ -162,6 +184,9 @@ func init() {
 					{Setup: []cliEv{ev("start", 0), ev("start", 1)}, Threads: [][]cliEv{nil, {cl}, {tickAfter}, {ev("resp", 1)}}},
 					{Setup: []cliEv{ev("start", 0)}, Threads: [][]cliEv{nil, {cl}, {ev("do", 1)}}},
 					{Setup: []cliEv{{K: "readerr", Arg: 1}}, Threads: [][]cliEv{nil, {cl}, {ev("start", 0)}}},
+					// the client is closed already: later calls race with a redundant second Close
+					{Setup: []cliEv{cl}, Threads: [][]cliEv{nil, {cl}, {ev("indicate", 0)}}},
+					{Setup: []cliEv{cl}, Threads: [][]cliEv{nil, {cl}, {ev("start", 0)}, {ev("indicate", 1)}}},
 				} {
 					sc.Opts = o
 					sc.Epilogue = "close"
